@@ -20,6 +20,7 @@ LEVEL_TEXT = ("Sibling-agreement rules over the three back ends: constants by va
               "phase order (C49-R1 machinery), exception containment and permission tests on the call paths from each "
               "back end's memory primitive to the page bytes (Python call chain + clang call graph), abstract event "
               "sequences of the two C dispatch loops. Equality of final states is not decided.")
+LEVEL_TEXT += ' Also: LLVM operator translation decided on the builder term extracted by partial evaluation of add_ir; Python back end byte order shared with C12.'
 ASSUMPTIONS = ["CPython ast; clang 14 AST", "Python method -> C function mapping read from the PyMethodDef table of vm_mngr_py.c"]
 ES = "miasm/jitter/emulatedsymbexec.py"
 VMPY = "miasm/jitter/vm_mngr_py.c"
